@@ -27,11 +27,12 @@ def uk_sym_words(E, st, fr, I, a):
 def uk_sym_int(E, st, fr, I, a): return new_sym(E, st, E.cstring(st, a[0]) or 'i', 32)
 def uk_sym_long(E, st, fr, I, a): return new_sym(E, st, E.cstring(st, a[0]) or 'l', 64)
 def uk_choice(E, st, fr, I, a):
-    n = conc(E, a[0]); v = new_sym(E, st, E.cstring(st, a[1]) or 'c', 32)
-    c = z3.ULT(v, z3.BitVecVal(n, 32))
-    m = E.feasible(st, c)
-    if m is None: raise PathEnd()
-    st.vals = m; E.assume(st, c); return v
+    # a skeleton decision: fresh 8-bit value in [0,n), concretised at once (one successor state per value)
+    n = conc(E, a[0])
+    if n <= 1: return 0
+    if n > 255: raise Unsupported('uk_choice range too large')
+    v = new_sym(E, st, E.cstring(st, a[1]) or 'c', 8)
+    return ('fork', st, [(k, v == z3.BitVecVal(k, 8), ('set', I[1], k)) for k in range(n)])
 
 def uk_assume(E, st, fr, I, a):
     c = a[0]
